@@ -145,9 +145,15 @@ def record_flatten(dfs, labels, two_d):
     src = []
     shape = (len(dfs), len(dfs[0])) if two_d else None
     flat_list = [d for row in dfs for d in row] if two_d else dfs
+    seen = {}
     for t, d in enumerate(flat_list):
-        d = d.copy()
-        d['rowid'] = t * 10000 + np.arange(len(d))
+        if id(d) in seen:
+            # the SAME table object at a second position of the list (e.g. one recording used as the reference of two conditions)
+            d = src[seen[id(d)]]
+        else:
+            seen[id(d)] = t
+            d = d.copy()
+            d['rowid'] = t * 10000 + np.arange(len(d))
         src.append(d)
         tabs.append([int(x) for x in d['rowid'].values])
     arg = [src[i * shape[1]:(i + 1) * shape[1]] for i in range(shape[0])] if two_d else src
